@@ -38,6 +38,10 @@ def mutants(prop):
     # to it): no check may report them or become undecided on them
     for p in sorted(glob.glob(os.path.join(HERE, "selftest", "ALL", "neg-*.diff"))):
         out.append({"name": "selftest/ALL/" + os.path.basename(p)[:-5], "patch": p, "expect": "silent", "nobuild": True})
+    # generated negatives: the current tree rewritten mechanically into the same program (every local renamed, every
+    # condition negated, every call moved into a helper of its own, ...) by the tools of checker/cmd, see DESIGN 10.16
+    for p in sorted(glob.glob(os.path.join(HERE, "selftest", "ALL", "neg-gen-*.gen"))):
+        out.append({"name": "selftest/ALL/" + os.path.basename(p)[:-4], "gen": json.load(open(p)), "patch": p, "expect": "silent"})
     return out
 
 
@@ -48,9 +52,16 @@ def run_one(prop, mu):
     try:
         dst = os.path.join(scratch, "repo")
         shutil.copytree(REPO, dst, ignore=shutil.ignore_patterns(".git"))
-        ap = subprocess.run(["git", "apply", "--whitespace=nowarn", mu["patch"]], cwd=dst, capture_output=True, text=True)
-        if ap.returncode != 0:
-            ap = subprocess.run(["patch", "-p1", "-s", "-i", mu["patch"]], cwd=dst, capture_output=True, text=True)
+        if mu.get("gen"):
+            tool = os.path.join(HERE, "bin", mu["gen"]["tool"])
+            if not os.path.exists(tool):
+                res.update(status="skipped", why="generator %s not built (run setup.sh)" % mu["gen"]["tool"])
+                return res
+            ap = subprocess.run([tool, dst] + mu["gen"].get("args", []), env=ENV, capture_output=True, text=True)
+        else:
+            ap = subprocess.run(["git", "apply", "--whitespace=nowarn", mu["patch"]], cwd=dst, capture_output=True, text=True)
+            if ap.returncode != 0:
+                ap = subprocess.run(["patch", "-p1", "-s", "-i", mu["patch"]], cwd=dst, capture_output=True, text=True)
         if ap.returncode != 0:
             res.update(status="skipped", why="patch does not apply to the current tree: " + (ap.stderr or ap.stdout).strip()[:200])
             return res
